@@ -38,6 +38,7 @@ package header
 //@   ensures [C02] prefix: len(result0) <= len(untrstdRange) && forall k int :: 0 <= k && k < len(result0) ==> result0[k] == old(untrstdRange[k])
 //@   ensures [C02] verified: forall k int :: 0 <= k && k < len(result0) ==> passedVerify(ite(k == 0, trstd, old(untrstdRange[k-1])), old(untrstdRange[k]))
 //@   ensures [C02] adjacent: forall k int :: 1 <= k && k < len(result0) ==> old(untrstdRange[k]).Height() == old(untrstdRange[k-1]).Height() + 1
+//@   ensures [C02] adjacent-closed: forall k int :: 0 <= k && k < len(result0) ==> old(untrstdRange[k]).Height() == old(untrstdRange[0]).Height() + k
 //@   ensures [C02] nil-iff-whole: result1 == nil <==> (len(result0) == len(untrstdRange) && len(untrstdRange) > 0)
 //@   ensures [C02] error-is-verr: result1 != nil ==> asVerr(result1) != nil
 //@   ensures [C02] input-unchanged: forall k int :: 0 <= k && k < len(untrstdRange) ==> untrstdRange[k] == old(untrstdRange[k])
@@ -50,6 +51,7 @@ package header
 //@   invariant copied: forall k int :: 0 <= k && k <= rangeindex ==> verified[k] == old(untrstdRange[k])
 //@   invariant passed: forall k int :: 0 <= k && k <= rangeindex ==> passedVerify(ite(k == 0, old(trstd), old(untrstdRange[k-1])), old(untrstdRange[k]))
 //@   invariant adjacent: forall k int :: 1 <= k && k <= rangeindex ==> old(untrstdRange[k]).Height() == old(untrstdRange[k-1]).Height() + 1
+//@   invariant adjacent-closed: forall k int :: 0 <= k && k <= rangeindex ==> old(untrstdRange[k]).Height() == old(untrstdRange[0]).Height() + k
 //@   decreases len(untrstdRange) - rangeindex
 
 // ---- interface contracts (assumed when verifying clients; proved for store.Store where stated)
